@@ -589,6 +589,7 @@ func c13(r *core.Report) {
 			return true
 		})
 	})
+	c13Format(r)
 }
 
 // c13Alias: a document-owned payload is never stored into, or mutated through, a request value
@@ -805,6 +806,85 @@ func c13Close(r *core.Report) {
 		}
 		if n == 0 {
 			core.Fail("no deferred Close of a request/response body found")
+		}
+	})
+}
+
+// c13Format: a default written into the request has to read back as the same value. fmt.Sprint of a
+// float64 (every number of a decoded document) switches to exponent notation at 1e+06, which the
+// integer parser of the parameter decoders rejects; a list prints as `[1 2]`.
+func c13Format(r *core.Report) {
+	p := r.Prog
+	info := p.Pkg("openapi3filter").TypesInfo
+	r.RunRule("C13.format", "defaults are written in a form the decoders read back: in validate_request.go every fmt.Sprint / Sprintf(\"%v\") of a value whose static type is an interface or a type parameter (a default taken from the document) happens in a function that first handles float64 (and lists) itself — a type switch on that value with a float64 case — so that 1000000 is written `1000000`, not `1e+06`", 1, func() {
+		k := 0
+		for _, d := range p.AllDecls("openapi3filter") {
+			if d.Body == nil || !strings.HasSuffix(p.Fset.Position(d.Pos()).Filename, "validate_request.go") {
+				continue
+			}
+			ast.Inspect(d.Body, func(n ast.Node) bool {
+				c, ok := n.(*ast.CallExpr)
+				if !ok || len(c.Args) != 1 {
+					return true
+				}
+				f := core.CalleeOf(info, c)
+				if f == nil || f.FullName() != "fmt.Sprint" {
+					return true
+				}
+				t := info.TypeOf(c.Args[0])
+				_, isIface := t.Underlying().(*types.Interface)
+				_, isTP := t.(*types.TypeParam)
+				if !isIface && !isTP {
+					return true
+				}
+				k++
+				key := fmt.Sprintf("format:%s#%d", core.FuncName(d), k)
+				// a type switch in the same function with a float64 case on the same value
+				handled := false
+				argObj := types.Object(nil)
+				if id, ok := ast.Unparen(c.Args[0]).(*ast.Ident); ok {
+					argObj = info.ObjectOf(id)
+				}
+				ast.Inspect(d.Body, func(m ast.Node) bool {
+					ts, ok := m.(*ast.TypeSwitchStmt)
+					if !ok {
+						return true
+					}
+					var operand ast.Expr
+					switch a := ts.Assign.(type) {
+					case *ast.ExprStmt:
+						if ta, ok := a.X.(*ast.TypeAssertExpr); ok {
+							operand = ta.X
+						}
+					case *ast.AssignStmt:
+						if ta, ok := a.Rhs[0].(*ast.TypeAssertExpr); ok {
+							operand = ta.X
+						}
+					}
+					if id, ok := ast.Unparen(operand).(*ast.Ident); !ok || argObj == nil || info.ObjectOf(id) != argObj {
+						return true
+					}
+					for _, st := range ts.Body.List {
+						for _, e := range st.(*ast.CaseClause).List {
+							if tv, ok := info.Types[e]; ok && tv.IsType() {
+								if b, ok := tv.Type.Underlying().(*types.Basic); ok && b.Kind() == types.Float64 {
+									handled = true
+								}
+							}
+						}
+					}
+					return true
+				})
+				if handled {
+					r.OK(key, p.Pos(c.Pos()), "numbers are formatted before the general case")
+				} else {
+					r.Bad(key, p.Pos(c.Pos()), fmt.Sprintf("%s writes a default with fmt.Sprint(%s): a numeric default of a decoded document is a float64, which prints as `1e+06` from one million on (and a list as `[1 2]`); the rewritten request then fails the very validation that produced it", core.FuncName(d), core.ExprStr(c.Args[0])))
+				}
+				return true
+			})
+		}
+		if k == 0 {
+			core.Fail("no fmt.Sprint of a document value found in validate_request.go")
 		}
 	})
 }
